@@ -684,7 +684,7 @@ class Compiler:
             thn = self.block(body, env, exits if tb else fall_next, ind + "  ")
             els = self.block(orelse, env, exits if te else fall_next, ind + "  ")
             return self.with_pre(pre, f"{ind}if {c} then (\n{thn})\n{ind}else (\n{els})", ind, exits)
-        asg = [x for x in self.assigned(body + orelse)] + self.effect_names(body + orelse)
+        asg = list(dict.fromkeys([x for x in self.assigned(body + orelse)] + self.effect_names(body + orelse)))
         env2 = dict(env)
         raising = self.probe_raising(body + orelse, env, {})
         if raising and exits.get("raise") is None: raise self.err("a raising expression in a function / loop the vocabulary declares total")
@@ -738,7 +738,7 @@ class Compiler:
         return out
 
     def loop_sig(self, body_nodes, extra_nodes, env, own):
-        carried = sorted([x for x in self.assigned(body_nodes) + self.effect_names(body_nodes) if x in env and x not in own and env[x] != "Ignored"], key=_natkey)
+        carried = sorted([x for x in dict.fromkeys(self.assigned(body_nodes) + self.effect_names(body_nodes)) if x in env and x not in own and env[x] != "Ignored"], key=_natkey)
         used = self.used(body_nodes + extra_nodes)
         frees = [x for x in env if x in used and x not in carried and x not in own and env[x] != "Ignored"]
         return carried, frees
